@@ -253,22 +253,22 @@ def rundir(pid):
     return d
 
 
-def _run_lines(exe, cases, workdir, tag, timeout, shards=NCPU, env=None, resume=6):
+def _run_lines(exe, cases, workdir, tag, timeout, shards=NCPU, env=None, resume=6, stall=None):
     """Run `exe casefile` over the cases, sharded across cores; returns the list of result strings.
     A process that dies (stack overflow, abort) loses only the case it died on: the cases after it are run
     again in a new process, up to `resume` times."""
-    res = _run_lines_once(exe, cases, workdir, tag, timeout, shards, env)
+    res = _run_lines_once(exe, cases, workdir, tag, timeout, shards, env, stall)
     for attempt in range(resume):
         todo = [i for i, r in enumerate(res) if r == "notrun"]
         if not todo:
             break
-        again = _run_lines_once(exe, [cases[i] for i in todo], workdir, "%s.r%d" % (tag, attempt), timeout, shards, env)
+        again = _run_lines_once(exe, [cases[i] for i in todo], workdir, "%s.r%d" % (tag, attempt), timeout, shards, env, stall)
         for i, r in zip(todo, again):
             res[i] = r
     return res
 
 
-def _run_lines_once(exe, cases, workdir, tag, timeout, shards=NCPU, env=None):
+def _run_lines_once(exe, cases, workdir, tag, timeout, shards=NCPU, env=None, stall=None):
     n = len(cases)
     if n == 0:
         return []
@@ -288,6 +288,26 @@ def _run_lines_once(exe, cases, workdir, tag, timeout, shards=NCPU, env=None):
             e.update(env)
         p = subprocess.Popen(["timeout", str(timeout), exe, cf], stdout=open(of, "w"), stderr=subprocess.DEVNULL, env=e)
         procs.append((p, of, len(chunk)))
+    if stall:
+        # watchdog: a process whose output has not grown for `stall` seconds is stuck inside one case
+        # (a step that never returns); it is killed, the case is reported, the rest is re-run
+        last = {id(p): (0, time.time()) for p, _, _ in procs}
+        while any(p.poll() is None for p, _, _ in procs):
+            time.sleep(0.5)
+            now = time.time()
+            for p, of, _ in procs:
+                if p.poll() is not None:
+                    continue
+                try:
+                    sz = os.path.getsize(of)
+                except OSError:
+                    sz = 0
+                osz, ot = last[id(p)]
+                if sz != osz:
+                    last[id(p)] = (sz, now)
+                elif now - ot > stall:
+                    subprocess.call(["pkill", "-9", "-P", str(p.pid)])
+                    p.kill()
     res = []
     for p, of, cnt in procs:
         rc = p.wait()
@@ -312,7 +332,7 @@ def run_model(pid, cases, timeout=600):
 
 def run_impl(pid, cases, profile="debug", timeout=600, env=None):
     exe = build_harness(profile)
-    return _run_lines(exe, cases, rundir(pid), "impl-" + profile, timeout, env=env)
+    return _run_lines(exe, cases, rundir(pid), "impl-" + profile, timeout, env=env, stall=int(os.environ.get("VERIF_STALL", "75")))
 
 
 # ----------------------------------------------------------------------------- findings / replay / evidence
